@@ -1,7 +1,9 @@
 """C20 -- the chain-sync client keeps listeners on one consistent chain at the best tip.
 
 1. TLC model-checks the design model spec/SpvClient.tla (all trees of NB blocks, all tip moves,
-   every single-request fault position) : it refines SpvAbstract (deadlock-free = every guard of
+   every single-request fault position; in the *lie* instance every lying get_header answer --
+   overstated / understated chainwork, height off by one on a correct header -- that the client
+   has to compare with a fetched header) : it refines SpvAbstract (deadlock-free = every guard of
    the observable spec is met) and keeps TipAgreement.
 2. TLC's reachable quiescent states are printed as driver scripts; the Rust engine `spv` executes
    them (plus seeded random scripts on larger trees with multi-faults) on the real SpvClient /
@@ -23,6 +25,9 @@ def convert(script):
         if o["op"] in ("poll", "sync"):
             o["fh"] = [o["fh"]] if o["fh"] >= 0 else []
             o["fb"] = [o["fb"]] if o["fb"] >= 0 else []
+            lie = o.pop("lie", None)
+            if lie and lie["b"] >= 0 and o["op"] == "poll":
+                o["lb"], o["lk"], o["ld"] = lie["b"], lie["k"], lie["d"]
         rest.append(o)
     return {"parent": script["parent"], "work": script["work"], "src": init["src"],
             "ltips": init["ltips"], "sync": bool(rest and rest[0]["op"] == "sync"), "ops": rest}
@@ -59,6 +64,40 @@ def selftest(wd, good_lines):
             m[k]["h"] = r["h"] + 1
             muts.append(("height-off-by-one", m))
             break
+    # (e) a reorganising poll whose tree is re-weighted so that the branch the listeners left has at
+    #     least the work of the branch they were moved to (binds the recorded block work to TowardsMoreWork)
+    for k, r in enumerate(recs):
+        if r["ev"] != "reset" or len(r["ltips"]) != 1 or k + 1 >= len(recs) or recs[k + 1]["ev"] != "poll_begin":
+            continue
+        par, old, src = r["parent"], r["ltips"][0], r["src"]
+        first_poll = []
+        for x in recs[k + 2:]:
+            if x["run"] != r["run"] or x["ev"] == "poll_end":
+                break
+            first_poll.append(x)
+        disc = [x for x in first_poll if x["ev"] == "disc"]
+        if not disc or disc[0]["to"] < 0:
+            continue
+        f = disc[0]["to"]
+
+        def path(b):
+            out = []
+            while b != f and b != 0:
+                out.append(b)
+                b = par[b - 1]
+            return out if b == f else None
+        po, pn = path(old), path(src)
+        if not po or not pn or 2 * len(po) < len(pn):
+            continue
+        m = [dict(x) for x in recs]
+        w = list(r["work"])
+        for b in po:
+            w[b - 1] = 2
+        for b in pn:
+            w[b - 1] = 1
+        m[k]["work"] = w
+        muts.append(("reorg-to-less-work", m))
+        break
     rejected = 0
     for name, m in muts:
         p = os.path.join(wd, "selftest-%s.ndjson" % name)
@@ -81,26 +120,42 @@ def run(tier, seed):
 
     # ---- 1. design check + behaviour generation
     mcs = []
-    cfgs = [("SpvClientMC.cfg", {}), ("SpvClientMCsync.cfg", {})]
+    # the *lie* instance: the source's deviations are correct headers carrying a wrong accumulated
+    # chainwork / height, restricted to answers the client has to compare with a fetched header
+    cfgs = [("SpvClientMC.cfg", {}), ("SpvClientMCsync.cfg", {}), ("SpvClientMClie.cfg", {})]
     if thorough:
-        cfgs = [("SpvClientMC5.cfg", {}), ("SpvClientMCsync4.cfg", {})]
+        cfgs = [("SpvClientMC5.cfg", {}), ("SpvClientMCsync4.cfg", {}), ("SpvClientMClie4.cfg", {})]
     scripts = []
+    lie_scripts = []
     for cfg, env in cfgs:
         r = vlib.tlc_mc(PID, "SpvClientMC", cfg, workers=12, timeout=3000 if thorough else 600)
         if r["violated"]:
             # a design-level counterexample is not yet a violation of the code (DESIGN 8): tool error
             raise vlib.ToolError("design model violates %s in %s (spec needs correction)" % (r["violated"], cfg))
-        vlib.require_coverage(r, ["MSetTip", "MNotify", "MPollEnd"] + (["MSync", "MSyncEnd"] if "sync" in cfg else []), cfg)
+        vlib.require_coverage(r, ["MSetTip", "MNotify", "MPollEnd"] + (["MSync", "MSyncEnd"] if "sync" in cfg else [])
+                              + (["MPollLie"] if "MClie" in cfg else []), cfg)
         got = vlib.tlc_printed(r["out"], "SCRIPT")
+        if "MClie" in cfg:
+            # histories without a lying answer are those of SpvClientMC.cfg minus the failures
+            got = [s for s in got if any(o.get("lie", {}).get("b", -1) >= 0 for o in s["ops"][1:])]
+            if not got:
+                raise vlib.ToolError("no script with a lying answer was generated by %s" % cfg)
         vlib.log("[mc] %s: %d distinct states, %d generated, depth %d, %d scripts, %.0fs" %
                  (cfg, r["distinct"], r["states"], r["depth"], len(got), r["wall_s"]))
-        scripts += got
+        if "MClie" in cfg:
+            lie_scripts += got
+        else:
+            scripts += got
         r.pop("out")
         mcs.append((cfg, r))
     rng = random.Random(seed)
     cap = 60000 if thorough else 15000
     if len(scripts) > cap:
         scripts = rng.sample(scripts, cap)
+    lcap = 40000 if thorough else 8000
+    if len(lie_scripts) > lcap:
+        lie_scripts = rng.sample(lie_scripts, lcap)
+    scripts += lie_scripts
     conv = [convert(s) for s in scripts]
     spath = os.path.join(wd, "scripts.ndjson")
     with open(spath, "w") as f:
@@ -158,13 +213,16 @@ def run(tier, seed):
         "samples": samples,
         "mc_runs": [{"cfg": c, "distinct": r["distinct"], "generated": r["states"], "depth": r["depth"],
                      "action_coverage": r["coverage"], "wall_s": round(r["wall_s"], 1)} for c, r in mcs],
-        "scripts_from_tlc": len(conv), "random_scripts": nrand, "events_validated": total,
+        "scripts_from_tlc": len(conv), "scripts_with_lying_answer": len(lie_scripts),
+        "lying_answers_served": summ.get("lies_served"), "random_scripts": nrand, "events_validated": total,
         "polls_and_syncs": summ["ops"], "runs_with_notifications": summ["runs_with_notifications"],
         "impl_panics": summ["panics"], "binding_selftest": st,
         "exhaustive": False,
     }
     vlib.write_evidence(PID, tier, seed, "model_checking", cov, [
-        "the block source is trusted for the height/chainwork metadata it attaches to a correct header",
+        "a wrong height/chainwork attached to a correct header is injected only where the client has to compare it "
+        "with a header it fetches (tip with uncached parent, or a fetched parent); with a cached parent, or when "
+        "nothing is walked, the source is trusted for that metadata; no such lies during start-up sync",
         "HEADER_CACHE_LIMIT (1008) eviction is not exercised: trees have at most 9 blocks",
         "futures complete immediately (no concurrent tip change inside one poll)",
     ], time.time() - t0, nviol)
